@@ -5,12 +5,49 @@ import os
 ROOT = os.path.dirname(os.path.dirname(os.path.abspath(__file__)))
 
 BUILT = {
+    # id: (design_ref, level text, level note)
     "C01": ("DESIGN.md 3/C01", "inductive one-chunk step of the plaintext reassembly from every valid buffer state (all cut pairs, symbolic types and payload bytes, three chunk types) plus end-to-end 2-3 chunk runs and _read_varuint on arbitrary bytes",
             "CrossHair bytes/bytearray/memoryview models; reference encoder; representation invariant of the buffer stated in the harness and re-established end-to-end by h01b"),
-    # id: (design_ref, level text, level note)
-    "C02": ("DESIGN.md 3/C02", "every batch written by the plaintext helper decodes under the strict reference decoder to the packets given, for all symbolic types/payload bytes inside the listed length classes; varuint encoder exact for all v < 2^64",
-            "CrossHair int/bytes models + plugin bit-op encodings; reference decoder is the documented format; noise part: ideal-AEAD recorder, concrete keys"),
+    "C02": ("DESIGN.md 3/C02", "every batch written by the plaintext helper decodes under the strict reference decoder to the packets given (symbolic types/payload bytes, listed length classes, two consecutive writes with the memoised encoder modelled); varuint encoder exact for all v < 2^64; send_messages hands the declared id and serialisation for every class; noise: framing and strictly consecutive nonces inductively on a symbolic nonce with the ideal AEAD, real cipher end-to-end against an independent responder",
+            "CrossHair int/bytes models + plugin bit-op encodings; reference decoder is the documented format; noise: ideal-AEAD recorder, two concrete keys; lru_cache modelled explicitly"),
+    "C03": ("DESIGN.md 3/C03", "inductive framing step of the noise helper from every (state, buffered prefix) with symbolic frame bytes and all cut pairs; real handshake against an independent Noise_NNpsk0 responder with every single/double cut of hello|handshake|data and symbolic data messages (ideal AEAD) plus real-cipher runs; readiness/gating through the real APIConnection",
+            "noise/cryptography executed concretely (untraced) with two concrete keys; ideal AEAD for symbolic ciphertexts; independent responder vf/noise_ref.py"),
+    "C04": ("DESIGN.md 3/C04", "data-phase deviations (replace by arbitrary bytes, drop, duplicate, swap, truncate) from a symbolic nonce with the ideal AEAD, handshake-phase deviations with symbolic content (selector, names, error text, marker byte, truncation lengths, wrong key, wrong framing), real-cipher bit flips, key strings over a 13-character alphabet",
+            "ideal AEAD (authenticity + nonce binding assumed); base64 decoding is C code: key strings are solver-enumerated over a tiny alphabet; two concrete keys"),
+    "C05": ("DESIGN.md 3/C05", "every sequence of 3 (quick) / 4 (thorough) events from a 21-event alphabet after each of 7 lifecycle stages on the real APIConnection over a virtual-time asyncio loop; monitor on every state assignment",
+            "SimLoop (real asyncio scheduler, virtual clock) and SimTransport model; resolver/connect stubs; schedule integers are solver-forked"),
+    "C06": ("DESIGN.md 3/C06", "real connect with symbolic HelloResponse/ConnectResponse fields (major/minor in [0,2^32), names of length <= 2, password verdict), symbolic expected name, 4 response orders/chunkings, login on/off, plaintext and noise",
+            "pbstub doubles carry symbolic fields through the real dispatch; noise handshake concrete against vf/noise_ref.py"),
+    "C07": ("DESIGN.md 3/C07", "every sequence of 3/4 events (close causes in every order and multiplicity, same-chunk/same-turn combinations, ping timeout) after 4/5 lifecycle stages; count and argument of the stop callback vs a three-valued reference",
+            "SimLoop/SimTransport; ties between a disconnect() call and another close cause in one loop turn are don't-care"),
+    "C08": ("DESIGN.md 3/C08", "every sequence of 3/4 events after 6 lifecycle stages; after any close: transports and owned sockets closed, no live timer, no pending call, no write and no subscriber delivery in CLOSED",
+            "SimLoop/SimTransport/FakeSock; sockets whose hand-over raced a task cancellation never reached the connection and are excluded"),
+    "C09": ("DESIGN.md 3/C09", "every sequence of 3/4 fault/device/user events after 6 stages (+ noise handshake stage), then virtual time runs until every call ended: documented time bounds, APIConnectionError-only outcomes, no unrequested cancellation, no deadlock, first fatal cause seen by waiting calls",
+            "virtual clock (callbacks take zero time); one address group; first-cause reference for garbage / undecodable / noise-marker / EOF"),
+    "C10": ("DESIGN.md 3/C10", "each real keep-alive callback is exactly one step of the reference automaton from every abstract state (K symbolic, instants symbolic), end-to-end runs with 1-3 (quick) / up to 5 (thorough) arrivals at symbolic times vs the automaton, z3 BMC of the automaton and the closed-form window",
+            "integer time grid (K*4.5 exact); the float product K*4.5 in the constructor is checked for 12 concrete K only; ties timer-first"),
+    "C11": ("DESIGN.md 3/C11", "two concurrent request-response calls (4 predicate/type configurations with symbolic parameters), every sequence of 4/5 events (messages with symbolic keys, loop turns, timers, caller cancellation, close, late start of the second call) vs an independent reference model; leftovers audit",
+            "pbstub doubles; SimLoop; close reported through report_fatal_error"),
+    "C12": ("DESIGN.md 3/C12", "process_packet for every type number in [0, 2^64) with empty/valid/undecodable payloads, scripted subscribers (subscribe/unsubscribe inside callbacks), replies to ping/time/disconnect requests, per-subscriber order over mixed sequences",
+            "SymTuple models tuple indexing for a symbolic index; one valid and one undecodable payload per type (protobuf decoding is C)"),
+    "C13": ("DESIGN.md 3/C13", "z3 queries (negations unsat) over api.proto text, compiled descriptors and the three lookup tables (presence, uniqueness, contiguity, positional lookup with Python index semantics, reverse map); CrossHair sweep of every public APIClient method and the connection's internal traffic against the source options",
+            "own tokenizer of api.proto; RecordingConn stands in for the connection in the client sweep"),
+    "C14": ("DESIGN.md 3/C14", "z3 queries over enum number/name maps and message/model field sets; CrossHair conversion of doubles with symbolic field values through from_pb / to_dict / from_dict; float fix-up with contract stubs for log10/round",
+            "numerical behaviour of libm log10 and round on float32 bit patterns is not addressed; pbstub doubles"),
+    "C15": ("DESIGN.md 3/C15", "every command method with every subset of optional arguments (symbolic Optional values, symbolic API version) against the exact set of assigned request fields",
+            "pbstub doubles (protobuf's own float32 rounding / type checks on assignment are outside); durations over exact rationals"),
+    "C16": ("DESIGN.md 3/C16", "the four Bluetooth filters on fully symbolic addresses/handles; two concurrent GATT operations with symbolic (address, handle) and 2-3 device messages of forked type delivered in the same or separate turns vs a reference model; connect timeout path",
+            "pbstub doubles; SimLoop; error-text formatting helpers replaced (they realise symbolic ints)"),
+    "C17": ("DESIGN.md 3/C17", "inductive camera reassembly step from an arbitrary buffer (symbolic keys/chunks), every state type through the real subscribe_states path, every subscribe_* with all subscribe/unsubscribe points, voice-assistant handler outcomes",
+            "pbstub doubles; SimLoop; float fix-up fields left at 0.0 (C14)"),
+    "C18": ("DESIGN.md 3/C18", "real ReconnectLogic on the virtual-time loop with a fake client and fake zeroconf: event sequences of attempt outcomes, session ends, mDNS records, start/stop; monitors for single attempt/session, back-off instants, callback alternation, clean stop; z3 check of the back-off table",
+            "FakeClient (the client itself is C05-C09/C19's subject); float pow rounding argued by interval, not solved"),
+    "C19": ("DESIGN.md 3/C19", "real APIClient over 9 concrete histories (earlier sessions/attempts) x every sequence of 3/4 client calls and device/fault events; acceptance of start/connect vs the monitor's model; commands/subscriptions/requests without a live session must raise and write nothing",
+            "SimLoop/SimTransport; monitor model independent of APIClient internals"),
+    "C20": ("DESIGN.md 3/C20", "host_is_name_part/address_is_local on symbolic strings; real async_resolve_host over forked host forms x mDNS outcomes x OS-resolver outcomes vs the decision table; zeroconf ownership over operation sequences",
+            "stub AsyncServiceInfo / AsyncZeroconf / getaddrinfo; host strings chosen by fork from small tables"),
 }
+ENABLED = set(os.environ.get('VF_ENABLED', 'C01,C02,C05,C10,C12,C13').split(','))
 NOT_YET = "check not built yet in this round (see DESIGN.md 8 build order); no claim is made"
 
 props = [json.loads(l) for l in open(os.path.join(ROOT, "properties.jsonl"))]
@@ -18,7 +55,7 @@ checks = []
 na = []
 for p in props:
     i = p["id"]
-    if i in BUILT:
+    if i in BUILT and os.path.exists(os.path.join(ROOT, 'vf', 'harness', i.lower() + '.py')) and i in ENABLED:
         ref, text, note = BUILT[i]
         checks.append({
             "property_id": i,
@@ -45,7 +82,7 @@ man = {
         "guard": "AIOESPHOMEAPI_VERIF",
         "enable": "no guarded code exists in /repo: every observation point is reachable from outside (sub-classing, recording transports, simulated loop); checks run /repo's working tree as is",
         "baseline_off_cmd": "cd /repo && /venv/bin/python -m pytest -ra -q -p no:cacheprovider --timeout=900 --continue-on-collection-errors",
-        "source_commits": [],
+        "source_commits": [],  # no guarded hooks; the unguarded "fix:" commits in /repo are listed in known_findings.json
         "add_only": True,
     },
     "engines": [
@@ -53,7 +90,7 @@ man = {
          "kind_free_text": "CrossHair 0.0.110 symbolic execution of /repo's Python with z3, sharded over 16 processes; plugin vf/plugin.py; native replay vf/replay.py; direct z3 queries in harness modules' smt_obligations()"},
     ],
     "checks": checks,
-    "notes": "VERIF_SEED only permutes shard order. Exit 2 is reserved for harness errors (never a VIOLATION line). known_findings.json lists recorded genuine defects.",
+    "notes": "VERIF_SEED only permutes shard order. Exit 2 is reserved for harness errors (never a VIOLATION line). known_findings.json lists recorded genuine defects (open) and repaired ones (fixed: ... <commit>). VF_REPO/VF_OUT redirect a run to a scratch copy (tools/try_seed.sh).",
     "not_applicable": na,
 }
 with open(os.path.join(ROOT, "MANIFEST.json"), "w") as f:
